@@ -723,7 +723,7 @@ func (g *GengineParserListener) ExitAtName(ctx *parser.AtNameContext) {
 		return
 	}
 	holder := g.Stack.Peek().(base.AtNameHolder)
-	err := holder.AcceptName(strings.ReplaceAll(g.ruleName, "\"", ""))
+	err := holder.AcceptName(g.ruleName)
 	if err != nil {
 		g.AddError(err)
 	}
@@ -735,7 +735,7 @@ func (g *GengineParserListener) ExitAtDesc(ctx *parser.AtDescContext) {
 		return
 	}
 	holder := g.Stack.Peek().(base.AtDescHolder)
-	err := holder.AcceptDesc(strings.ReplaceAll(g.ruleDescription, "\"", ""))
+	err := holder.AcceptDesc(g.ruleDescription)
 	if err != nil {
 		g.AddError(err)
 	}
